@@ -128,7 +128,7 @@ def _strip_type_refs(t):
 def m_partial_eq(ex, m, argv, guard, st, callee):
     ty = _strip_type_refs(m.group(1))
     base = re.sub(r'<.*$', '', strip_paths(ty))
-    ok = (base in PRIMS or re.fullmatch(r'[A-Z]', base) or base in ('Option', 'Box', 'Result', 'Vec')
+    ok = (base in PRIMS or re.fullmatch(r'[A-Z]', base) or base in ('Option', 'Box', 'Result', 'Vec', 'String')
           or ty.startswith('(') or ty.startswith('['))
     if not ok:
         d = has_derived(ex, ty, 'PartialEq')
@@ -1074,7 +1074,7 @@ def m_owned_map(ex, m, argv, guard, st, callee):
     it, f = argv
     if not (isinstance(it, Model) and it.kind == 'vec_into_iter'):
         raise Unsupported("Iterator::map on %r" % (it,))
-    return guard, Model('map_iter', vec=it.f['vec'], fn=f)
+    return guard, Model('map_iter', vec=it.f['vec'], fn=f, rev=it.f.get('rev', False))
 
 
 def m_map_collect(ex, m, argv, guard, st, callee):
@@ -1084,28 +1084,103 @@ def m_map_collect(ex, m, argv, guard, st, callee):
     if not (isinstance(mp, Model) and mp.kind == 'map_iter'):
         raise Unsupported("collect on %r" % (mp,))
     vec, clo = mp.f['vec'], mp.f['fn']
+    if vec.f.get('rev', False):
+        raise Unsupported("iteration over a Vec that is stored reversed")
     items = list(vec.f['items'].fields)
     ln = vec.f['len']
+    backwards = mp.f.get('rev', False)
     target = find_closure(ex, clo.tag)
     ex.fresh_n += 1
     cell = (0, 'closure%d' % ex.fresh_n)
     st.mem[cell] = clo
-    out = []
-    for i, x in enumerate(items):
+    out = [None] * len(items)
+    order = list(enumerate(items))
+    if backwards:
+        order.reverse()
+    for i, x in order:
         active = zsimp(z3.ULT(bv(i, 64), ln))
         if x is None or z3.is_false(active):
-            out.append(None)
             continue
         before = st.copy()
         g2, r = ex.call_function(target.fn, [PlaceRef(cell), x], zand(guard, active), st)
-        out.append(r)
+        out[i] = r
         if not z3.is_true(active):
             from mirsym import merge_states
             _g, merged = merge_states([(active, st.copy()), (znot(active), before)])
             st.mem, st.dom, st.ckey = merged.mem, merged.dom, merged.ckey
     del st.mem[cell]
     # one spare slot so that a following push does not exceed the model
+    if backwards:
+        # results are kept at the index of their source element; the logical order is the reverse
+        return guard, Model('vec', items=Agg(out + [None], 'vecitems'), len=ln, cap=zsimp(ln + bv(1, 64)), rev=True)
     return guard, Model('vec', items=Agg(out + [None], 'vecitems'), len=ln, cap=zsimp(ln + bv(1, 64)))
+
+
+def m_into_iter_rev(ex, m, argv, guard, st, callee):
+    it = argv[0]
+    if not (isinstance(it, Model) and it.kind == 'vec_into_iter'):
+        raise Unsupported("rev on %r" % (it,))
+    return guard, Model('vec_into_iter', vec=it.f['vec'], rev=True)
+
+
+def m_vec_deref_mut(ex, m, argv, guard, st, callee):
+    ref = argv[0]
+    if not isinstance(ref, PlaceRef):
+        raise Unsupported("Vec::deref_mut through %s" % type(ref).__name__)
+    return guard, Model('vec_mut_slice', ref=ref)
+
+
+def m_slice_reverse(ex, m, argv, guard, st, callee):
+    ms = argv[0]
+    if not (isinstance(ms, Model) and ms.kind == 'vec_mut_slice'):
+        raise Unsupported("slice::reverse on %r" % (ms,))
+    v = ex.read_ref(st, ms.f['ref'])
+    f = dict(v.f)
+    # a vec collected from a reversed iterator is stored in source order with the flag `rev` set; reversing it clears the flag
+    f['rev'] = not v.f.get('rev', False)
+    ex.write_cell(st, ms.f['ref'].cell, ms.f['ref'].path, Model('vec', **f))
+    return guard, UNIT
+
+
+def m_last_mut(ex, m, argv, guard, st, callee):
+    ms = argv[0]
+    if not (isinstance(ms, Model) and ms.kind == 'vec_mut_slice'):
+        raise Unsupported("last_mut on %r" % (ms,))
+    ref = ms.f['ref']
+    v = ex.read_ref(st, ref)
+    ln = zsimp(v.f['len'])
+    none = EnumV(ex.defs.find_enum('Option'), bv(0, 64), {'None': ()})
+    if not z3.is_bv_value(ln):
+        raise Unsupported("last_mut on a Vec of symbolic length")
+    if ln.as_long() == 0:
+        return guard, none
+    return guard, EnumV(ex.defs.find_enum('Option'), bv(1, 64),
+                        {'Some': (PlaceRef(ref.cell, ref.path + (('vecitem', ln.as_long() - 1),)),)})
+
+
+def m_iter_find(ex, m, argv, guard, st, callee):
+    """slice::Iter::find(closure): the first element in range for which the (pure) predicate holds."""
+    it = _iter_get(ex, st, argv[0])
+    s = it.f['slice']
+    target = find_closure(ex, re.search(r'\{closure@[^}]*\}', callee).group(0))
+    cl = argv[1]
+    ex.fresh_n += 1
+    cell = (0, 'closure%d' % ex.fresh_n)
+    st.mem[cell] = cl
+    none = EnumV(ex.defs.find_enum('Option'), bv(0, 64), {'None': ()})
+    res = none
+    first = target.fn.params[0][1]
+    for j in range(len(s.backing) - 1, -1, -1):
+        elem = s.backing[j]
+        active = zsimp(zand(z3.ULE(s.start + it.f['pos'], bv(j, 64)), z3.ULT(bv(j, 64), s.start + s.length)))
+        if z3.is_false(active) or elem is None:
+            continue
+        a0 = PlaceRef(cell) if first.startswith('&mut') else ValRef(cl)
+        g2, b = ex.call_function(target.fn, [a0, ValRef(ValRef(elem))], zand(guard, active), st.copy())
+        hit = zand(active, b)
+        res = ite_val(hit, EnumV(ex.defs.find_enum('Option'), bv(1, 64), {'Some': (ValRef(elem),)}), res)
+    del st.mem[cell]
+    return guard, res
 
 
 def m_noop_unit(ex, m, argv, guard, st, callee):
@@ -1142,6 +1217,13 @@ def register(ex):
     A(r'^<(?:std::vec::)?Vec<.*> as (?:std::iter::)?IntoIterator>::into_iter$', m_vec_into_iter, 'Vec::into_iter (owned)')
     A(r'^<(?:std::vec::)?IntoIter<.*> as (?:std::iter::)?Iterator>::map::<.*>$', m_owned_map, 'IntoIter::map (lazy)')
     A(r'^<(?:std::iter::)?Map<(?:std::vec::)?IntoIter<.*>, \{closure@.*\}> as (?:std::iter::)?Iterator>::collect::<(?:std::vec::)?Vec<.*>>$', m_map_collect, 'Map<IntoIter, closure>::collect::<Vec> (closure applied in order)')
+    A(r'^<(?:std::vec::)?IntoIter<.*> as (?:std::iter::)?Iterator>::rev$', m_into_iter_rev, 'IntoIter::rev')
+    A(r'^<(?:std::iter::)?Rev<(?:std::vec::)?IntoIter<.*>> as (?:std::iter::)?Iterator>::map::<.*>$', m_owned_map, 'Rev<IntoIter>::map (lazy)')
+    A(r'^<(?:std::iter::)?Map<(?:std::iter::)?Rev<(?:std::vec::)?IntoIter<.*>>, \{closure@.*\}> as (?:std::iter::)?Iterator>::collect::<(?:std::vec::)?Vec<.*>>$', m_map_collect, 'Map<Rev<IntoIter>, closure>::collect::<Vec> (closure applied last to first)')
+    A(r'^<(?:std::vec::)?Vec<.*> as (?:std::ops::)?DerefMut>::deref_mut$', m_vec_deref_mut, 'Vec::deref_mut')
+    A(r'^core::slice::<impl \[.*\]>::reverse$', m_slice_reverse, 'slice::reverse on a whole Vec')
+    A(r'^core::slice::<impl \[.*\]>::last_mut$', m_last_mut, 'slice::last_mut on a whole Vec')
+    A(r'^<(?:std::slice::)?Iter<.*> as (?:std::iter::)?Iterator>::find::<\{closure@.*$', m_iter_find, 'slice::Iter::find with a pure predicate')
     A(r'^<(?:std::boxed::)?Box<.*> as (?:std::ops::)?Drop>::drop$', m_noop_unit, 'Box drop (no-op)')
     A(r'^<bool as (?:std::default::)?Default>::default$', m_bool_default, 'bool::default')
     A(r'^(?:std::vec::)?Vec::<.*>::with_capacity$', m_hvec_with_capacity, 'Vec::with_capacity (heap model with initialisation flags)')
